@@ -369,8 +369,8 @@ def check_C02(ctx, w):
 
 def check_C04(ctx, w):
     ctx.rule = "close+reopen (with and without Create) and, in synchronous mode, abandonment at every position of every history of the bounded model, full sweep before and after; random histories over the extreme-value palettes (2^53 neighbours, MaxInt64, nanosecond timestamps)"
-    tests = mc_tests(ctx, w, "mc", slots=2, kvals=2, avals=2, maxbatch=2, maxops=ctx.q(3, 4), bfilter="PairBatch", get=False, limit=ctx.q(3000, 50000))
-    tests += rnd_tests(ctx, ctx.q(200, 3000), nops=ctx.q(25, 50), p_reopen=0.2, abandon=True)
+    tests = mc_tests(ctx, w, "mc", slots=2, kvals=2, avals=2, maxbatch=2, maxops=ctx.q(3, 4), bfilter="PairBatch", get=False, limit=ctx.q(3000, 30000))
+    tests += rnd_tests(ctx, ctx.q(200, 2000), nops=ctx.q(25, 50), p_reopen=0.2, abandon=True)
     tests += sim_tests(ctx, w, "sim", ctx.q(64, 1600), slots=3, kvals=3, avals=2, maxbatch=1, maxops=ctx.q(8, 12), bfilter="NoBatch", get=False)
     tests += aux_tests(ctx, ctx.q(100, 1500), mc=ctx.rng.sample(tests, min(len(tests), ctx.q(300, 3000))), nops=ctx.q(25, 40), p_reopen=0.2, abandon=True)
     # "subsequent operations behave as if no restart had happened": on these restart-heavy histories the write and read
